@@ -93,6 +93,9 @@ func (s *Search) And(field, operator string, value interface{}) *Search {
 		return s
 	}
 
+	s.db.RLock()
+	defer s.db.RUnlock()
+
 	return s.db.search(s.object, field, operator, value, s.fields)
 }
 
@@ -102,6 +105,9 @@ func (s *Search) Or(field, operator string, value interface{}) *Search {
 	if s.err != nil {
 		return s
 	}
+
+	s.db.RLock()
+	defer s.db.RUnlock()
 
 	new := s.db.search(s.object, field, operator, value, nil)
 	marked := make(map[uint64]bool)
@@ -126,6 +132,18 @@ func (s *Search) Len() int {
 // Iterator returns an Iterator convenient to iterate over
 // the objects resulting from the search
 func (s *Search) Iterator() (it *iterator, err error) {
+	if s.err != nil {
+		return nil, s.err
+	}
+
+	s.db.RLock()
+	defer s.db.RUnlock()
+
+	return s.iterator()
+}
+
+// iterator must be called with DB locked
+func (s *Search) iterator() (it *iterator, err error) {
 	var sch *Schema
 
 	if s.err != nil {
@@ -272,7 +290,7 @@ func (s *Search) collect() (out []Object, err error) {
 		return nil, s.err
 	}
 
-	if it, err = s.Iterator(); err != nil {
+	if it, err = s.iterator(); err != nil {
 		return
 	}
 
